@@ -544,6 +544,7 @@ class SigmaCorrelationRule(SigmaRuleBase, ProcessingItemTrackingMixin):
                         f"'{ correlation_type }' is no valid Sigma correlation type", source=source
                     )
                 )
+                correlation_type = None
         else:  # no correlation type provided
             errors.append(
                 sigma_exceptions.SigmaCorrelationTypeError(
